@@ -980,6 +980,19 @@ def merge_cvrs_post(S, I, variant):
 
 # ------------------------------------------------------------------ C16c: Assertion.find_sample_size, hypothetical data (unbounded N)
 
+def sample_size_stub(calls, ret):
+    """NonnegMean.sample_size abstracted by its interface: records the population and the arguments it was called with, however
+    they were passed (positionally or by keyword: sample_size(x, alpha, reps, prefix, quantile, seed=..))"""
+    def sample_size(I_, a, k):
+        got = dict(zip(["x", "alpha", "reps", "prefix", "quantile", "seed"], a))
+        got.update(k)
+        x = got.pop("x", None)
+        calls.append((x, got))
+        return ret
+    return sample_size
+
+
+
 @script(["C16"], "Assertion.find_sample_size/comparison data (symbolic N, rates)", variants=(("both",), ("rate1",), ("rate2",), ("none",)))
 def find_sample_size_comparison(S, I, variant):
     N = S.integer("N", lo=1)
@@ -994,10 +1007,7 @@ def find_sample_size_comparison(S, I, variant):
     calls = []
     ret = S.integer("estimate", lo=1)
 
-    def sample_size(I_, a, k):
-        k = dict(k)
-        calls.append((a[0] if a else k.pop("x", None), k))
-        return ret
+    sample_size = sample_size_stub(calls, ret)
 
     NM = I.get("shangrla.core.NonnegMean", "NonnegMean")
     test = Obj(NM, {"N": N, "u": XR.const(1), "sample_size": Builtin("abstract_sample_size", sample_size)})
@@ -1035,6 +1045,58 @@ def find_sample_size_comparison(S, I, variant):
          x.at(i), exp)
 
 
+@script(["C16"], "Assertion.find_sample_size/supplied data and simulation arguments are handed to the test unchanged",
+        variants=(("data",), ("comparison",), ("polling",)))
+def find_sample_size_delegation(S, I, variant):
+    """whatever branch builds the population, the test's estimator receives the caller's prefix flag, number of repetitions,
+    quantile and seed, the contest's own risk limit, and (when data are supplied) exactly those data"""
+    c = ctx()
+    N = S.integer("N", lo=1)
+    u_a = S.real("u_a", lo=Fraction(1, 2))
+    v = S.real("margin", lo_strict=0)
+    c.assume(xcmp("<=", v, xsub(xmul(XR.const(2), u_a), ONE)))
+    rl = S.real("risk_limit", lo_strict=0, hi=Fraction(1, 2))
+    atype = {"data": S.choose("audit_type", ["POLLING", "CARD_COMPARISON"]), "comparison": "CARD_COMPARISON", "polling": "POLLING"}[variant[0]]
+    con = mk_contest(I, id="con", cards=N, candidates=["W", "L"], winner=["W"], audit_type=atype, risk_limit=rl)
+    con.attrs["tally"] = {"W": S.integer("tally_W", lo=0), "L": S.integer("tally_L", lo=0)}
+    c.assume(icmp("<=", iadd(con.attrs["tally"]["W"], con.attrs["tally"]["L"]), N))
+    calls = []
+    ret = S.integer("estimate", lo=1)
+
+    sample_size = sample_size_stub(calls, ret)
+
+    I.contracts["Assertion.interleave_values"] = lambda I_, fn, args, kwargs: S.array("interleaved", N, 0, None)
+    NM = I.get("shangrla.core.NonnegMean", "NonnegMean")
+    test = Obj(NM, {"N": N, "u": u_a, "sample_size": Builtin("abstract_sample_size", sample_size)})
+    assorter = abstract_assorter(S, I, con, u_a, [])
+    asn = Obj(I.get(MOD, "Assertion"), {"contest": con, "assorter": assorter, "margin": v, "test": test, "winner": "W", "loser": "L",
+                                        "sample_size": None})
+    prefix = S.boolean("prefix")
+    reps = S.choose("reps", [None, 7])
+    quantile = S.real("quantile", lo_strict=0, hi_strict=1)
+    seed = S.integer("seed", lo=0)
+    kw = {"prefix": prefix, "reps": reps, "quantile": quantile, "seed": seed}
+    data = None
+    if variant[0] == "data":
+        data = S.array("data", S.integer("n_data", lo=1), 0, None)
+        kw["data"] = data
+    else:
+        kw["rate_1"], kw["rate_2"] = XR.const(0), XR.const(0)
+    out, exc = guard(S, I, lambda: I.call(I.getattr(asn, "find_sample_size"), [], kw))
+    if exc:
+        return
+    S.holds("the test's estimator is called exactly once", len(calls) == 1)
+    if len(calls) != 1:
+        return
+    x, kws = calls[0]
+    if data is not None:
+        S.holds("the supplied data are what the test is run on", x is data)
+    S.holds("risk limit, prefix flag, repetitions, quantile and seed reach the test unchanged",
+            kws.get("alpha") is rl and kws.get("prefix", False) is prefix and kws.get("reps") is reps
+            and kws.get("quantile", None) is quantile and kws.get("seed", None) is seed)
+    S.holds("returns and records the test's estimate", band(bterm(I.equal(out, ret)), bterm(I.equal(asn.attrs["sample_size"], ret))))
+
+
 @script(["C16"], "Assertion.find_sample_size/polling data (symbolic tallies of 3 candidates, symbolic N)")
 def find_sample_size_polling(S, I, variant):
     """the hypothetical population for a polling audit: the reported tallies interleaved -- loser's votes at 0, winner's votes at the
@@ -1052,10 +1114,7 @@ def find_sample_size_polling(S, I, variant):
     calls, ivcalls = [], []
     ret = S.integer("estimate", lo=1)
 
-    def sample_size(I_, a, k):
-        k = dict(k)
-        calls.append((a[0] if a else k.pop("x", None), k))
-        return ret
+    sample_size = sample_size_stub(calls, ret)
 
     pop = S.array("interleaved", N, 0, None)
 
